@@ -10,7 +10,7 @@ open OdlModel OdlModel.OpAlgebra
 answers `ok tree=… dom=… ran=… lin=0|1 fn=0|1 ty=… linof=0|1 tt=0|1 val=… inp=… den=…` or
 `raise ty=… tt=0|1` (`tt`: the dispatch through the extracted tables gives the same object).
 
-leaf   : `mat~ndom~nran~rows` `scale~n~c` `ident~n` `pow~n~p` `inner~n~y` `l2sq~n` `constf~n~c`
+leaf   : `scalef~c` `powf~p` (field -> field) `mat~ndom~nran~rows` `scale~n~c` `ident~n` `pow~n~p` `inner~n~y` `l2sq~n` `constf~n~c`
          `zerof~n` `linf~n~y` (leaf id = position)
 tokens : `L~id` `neg` `pow~n` `add` `sub` `mul` `pprod` `quot`
          `s.lmul~c` `s.rmul~c` `s.div~c` `s.add~c` `s.radd~c` `s.sub~c` `s.rsub~c`
@@ -61,6 +61,12 @@ def parseLeaf (id : Nat) (s : String) : Option (Leaf × (V → V)) :=
       let n ← n.toNat?
       let p ← p.toNat?
       some (⟨id, .vec n, .vec n, false, false⟩, fun x j => if j < n then cpow (x j) p else 0)
+  | ["scalef", c] => do
+      let c ← CRat.parse c
+      some (⟨id, .fld, .fld, true, false⟩, fun x => let v := c * x 0; fun _ => v)
+  | ["powf", p] => do
+      let p ← p.toNat?
+      some (⟨id, .fld, .fld, false, false⟩, fun x => let v := cpow (x 0) p; fun _ => v)
   | ["inner", n, y] => do
       let n ← n.toNat?
       let y ← parseCList y
